@@ -69,17 +69,68 @@ def drive(lines: list[dict[str, Any]], procs: int = 12, timeout: float = 3000.0)
     return res
 
 
-def reader_regexes() -> list[str]:
-    """The three `re.match` literals of xml_parser.py, in source order, read from the working tree."""
+PINNED_READER_REGEXES = ["<(\\w+?)(\\s+?)(.+?)(/*)>", "<(\\w+)>", '^(\\w+)="(.+?)"\\s*(.*)']
+
+
+def _source_patterns() -> list[str]:
+    """Every string literal handed to re.match / re.compile / re.search / re.fullmatch in xml_parser.py, in source order."""
     tree = ast.parse((REPO / "src/kskm/common/xml_parser.py").read_text())
-    found: list[tuple[int, str]] = []
+    found: list[tuple[int, int, str]] = []
     for node in ast.walk(tree):
-        if isinstance(node, ast.Call) and isinstance(node.func, ast.Attribute) and node.func.attr == "match":
+        if isinstance(node, ast.Call) and isinstance(node.func, ast.Attribute) and node.func.attr in ("match", "compile", "search", "fullmatch"):
             if isinstance(node.func.value, ast.Name) and node.func.value.id == "re" and node.args:
                 a = node.args[0]
                 if isinstance(a, ast.Constant) and isinstance(a.value, str):
-                    found.append((node.lineno, a.value))
-    return [p for _, p in sorted(found)]
+                    found.append((node.lineno, node.col_offset, a.value))
+    return [p for _, _, p in sorted(found)]
+
+
+def _same_matcher(p: str, q: str, corpus: list[str]) -> bool:
+    try:
+        cp, cq = re.compile(p), re.compile(q)
+    except re.error:
+        return False
+    if cp.groups != cq.groups:
+        return False
+    for s in corpus:
+        a, b = cp.match(s), cq.match(s)
+        if (a is None) != (b is None) or (a is not None and (a.groups() != b.groups() or a.end() != b.end())):
+            return False
+    return True
+
+
+def reader_regexes() -> list[str]:
+    """The three patterns the reader matches with (start tag with attributes, start tag without, attribute), in that order, as
+    the source has them NOW.  Literals may have moved (inline `re.match(lit, …)` or module-level `re.compile(lit)`) and may have
+    been rewritten into EQUIVALENT expressions: each pinned pattern is paired with the source literal that behaves like it on the
+    differential corpus (`match` groups and end position on ~45 000 strings); if no such pairing exists the literals are returned
+    as found (source order), and the differential run against the model's matchers then shows where they differ."""
+    pats = _source_patterns()
+    if pats[:3] == PINNED_READER_REGEXES and len(pats) == 3:
+        return pats
+    import random
+
+    r = random.Random(20260926)
+    corpus = FIXED_TAG + FIXED_ATTR + gen_strings(r, 20000, "tag") + gen_strings(r, 20000, "attr")
+    paired: list[str] = []
+    for pinned in PINNED_READER_REGEXES:
+        hit = [q for q in pats if q not in paired and _same_matcher(pinned, q, corpus)]
+        if not hit:
+            return pats
+        paired.append(hit[0])
+    return paired
+
+
+def reader_regexes_equivalent_to_pinned() -> bool:
+    """True iff the source's patterns are the pinned ones or behave like them on the differential corpus."""
+    got = reader_regexes()
+    if got == PINNED_READER_REGEXES:
+        return True
+    import random
+
+    r = random.Random(20260927)
+    corpus = FIXED_TAG + FIXED_ATTR + gen_strings(r, 20000, "tag") + gen_strings(r, 20000, "attr")
+    return len(got) == 3 and all(_same_matcher(a, b, corpus) for a, b in zip(PINNED_READER_REGEXES, got))
 
 
 # characters the three expressions can tell apart, plus look-alikes
